@@ -185,7 +185,7 @@ def run(shard, tier, seed):
         @hypothesis.seed(env.subseed(seed, ID, "rand", shard["i"]))
         @settings(max_examples=n, deadline=None, database=None, suppress_health_check=list(hypothesis.HealthCheck), phases=[hypothesis.Phase.generate])
         @given(st.lists(st.tuples(c07.message_s(), st.builds(M.MessageHeader, c07.u32, c07.u32, c07.u32, c07.u64)), min_size=1, max_size=6),
-               st.sampled_from(KINDS), st.integers(0, 5), st.randoms(use_true_random=False))
+               st.sampled_from(KINDS), st.integers(0, 5), st.randoms(use_true_random=True))
         def prop(msgs, kind, k, rnd):
             frames = [R.frame(h.serialize() + m.serialize()) for m, h in msgs]
             stream = b"".join(frames) if kind == "none" else corruptions(frames, k % len(frames), kind)
@@ -229,7 +229,7 @@ def run_node(res, tier, seed):
     try:
         @hypothesis.seed(env.subseed(seed, ID, "node"))
         @settings(max_examples=n, deadline=None, database=None, suppress_health_check=list(hypothesis.HealthCheck), phases=[hypothesis.Phase.generate])
-        @given(st.lists(st.integers(0, 5), min_size=1, max_size=4), st.sampled_from(KINDS), st.integers(0, 4), st.randoms(use_true_random=False))
+        @given(st.lists(st.integers(0, 5), min_size=1, max_size=4), st.sampled_from(KINDS), st.integers(0, 4), st.randoms(use_true_random=True))
         def prop(idx, kind, k, rnd):
             sm = small_messages(M)
             outcomes = []
